@@ -38,7 +38,7 @@ IDS = ['a', 'b', 'c']
 
 
 def step(o, tol):
-    return {'c': 0.25, 'm': 8.0, 'e': tol, 'n': -8.0, 'q': 0.75 * tol}[o]
+    return {'c': 0.25, 'm': 8.0, 'e': tol, 'n': -8.0, 'q': 0.75 * tol, 'x': float('nan'), 'i': float('inf')}[o]
 
 
 class Sub(BaseModel):
@@ -54,7 +54,7 @@ class Sub(BaseModel):
         LOG.append(('eval', d['tag'], kw.get('iteration')))
         o = d['script'][d['n']] if d['n'] < len(d['script']) else 'c'
         d['n'] += 1
-        if o in ('e', 'n'):
+        if o in ('e', 'n', 'x', 'i'):
             self._B[t] += step(o, d['tol'])
         elif o == 'q':
             self._A[t] += step(o, d['tol'])
@@ -122,7 +122,8 @@ def run_scripted_case(case):
     for k in range(1, max_iter + 1):
         if k < min_iter:
             continue
-        if all((sc[k - 1] if k - 1 < len(sc) else 'c') in ('c', 'q') for sc in scripts[:1 + len(seld)]):
+        poisoned = any(o in ('x', 'i') for sc in scripts[:1 + len(seld)] for o in sc[:k])  # a non-finite check value never "moved by less than tol"
+        if not poisoned and all((sc[k - 1] if k - 1 < len(sc) else 'c') in ('c', 'q') for sc in scripts[:1 + len(seld)]):
             k_conv = k
             break
     if k_conv:
@@ -150,7 +151,7 @@ def run_scripted_case(case):
     }
     if obs != exp:
         fields = '+'.join(sorted(k for k in exp if exp[k] != obs[k]))
-        tag = 'max_iter=0' if max_iter == 0 else ('tol-boundary' if any(o in 'eq' for sc in scripts for o in sc) else 'general')
+        tag = 'max_iter=0' if max_iter == 0 else ('non-finite' if any(o in 'xi' for sc in scripts for o in sc) else 'tol-boundary' if any(o in 'eq' for sc in scripts for o in sc) else 'general')
         out.append(('scripted:%s:%s:%s' % (fields, tag, res), exp, obs, 'linker solve_t disagrees with the reference loop'))
     strip = lambda log: [e[:2] if e[0] == 'eval' else e[:1] for e in log]  # the iteration keyword is not part of the property
     if strip(LOG) != strip(exp_log) and not out:
@@ -179,7 +180,7 @@ def joint_scripts(n_actors, length, tier):
     for sc in base:
         for a in range(n_actors):
             for p in range(length):
-                for dev in 'enq':
+                for dev in 'enqxi':
                     x = [list(s) for s in sc]
                     x[a][p] = dev
                     yield x
